@@ -6,6 +6,9 @@ import Abyss.Props.RaBufP
 import Abyss.Props.RaBufMap
 import Abyss.Props.C03Rb
 import Abyss.Props.C03Gen
+import Abyss.Lemmas.FlushGenL
+#print axioms Abyss.Buf.dbApplyAll_eq_dbSync
+#print axioms Abyss.dbApplyAll_eq_applyList
 #print axioms Abyss.RaBuf.C03_generated_flush
 #print axioms Abyss.RaBuf.mapFlush_eq_MapRb_flushLike
 #print axioms Abyss.dirty_flag_pins
